@@ -137,7 +137,11 @@ def gen_spec(rng, cid):
     sizes = [max(s, k + 1) for s in sizes]
     metric = rng.choice(METRICS)
     layout = "directions" if metric in ("cosine", "correlation", "dot", "hellinger") else "offsets"
-    spec = dict(id=cid, seed=rng.randrange(10 ** 6), dim=rng.choice([2, 3, 5]) if layout == "offsets" else rng.choice([4, 6]),
+    if rng.random() < 0.25:
+        # tie-heavy categorical data: many pairs at exactly the same distance
+        metric = rng.choice(["hamming", "hamming", "manhattan", "euclidean"])
+        layout = "categorical"
+    spec = dict(id=cid, seed=rng.randrange(10 ** 6), dim=16 if layout == "categorical" else (rng.choice([2, 3, 5]) if layout == "offsets" else rng.choice([4, 6])),
                 sizes=sizes, layout=layout, spread=rng.choice([30.0, 100.0]), positive=metric in ("canberra", "hellinger"),
                 metric=metric, k=k, tree_init=rng.choice([True, True, False]), search_size=search_size)
     if rng.random() < 0.3:
@@ -165,7 +169,7 @@ def connect_stream(ctx, ncases):
                 stats["hangs"] += 1
                 small = min(spec["sizes"] + spec.get("update_sizes", [])) < spec["search_size"]
                 if stats["hangs"] <= 3:
-                    ctx.violation("connect-hang" + ("-small-component" if small else ""),
+                    ctx.violation("connect-hang" + ("-small-component" if small else ("-ties" if spec["layout"] == "categorical" else "")),
                                   "connect_graph %s within %d s (stage %s; cluster sizes %s, search_size %d)%s" %
                                   ("did not return" if reason == "hang" else reason, to, (progress or {}).get("progress"), spec["sizes"],
                                    spec["search_size"], "; a component is smaller than search_size" if small else ""),
